@@ -23,6 +23,9 @@ pub enum Op {
     Read = 6,
     Write = 7,
     Other = 8,
+    /// The shimmed operation has just completed (its effect is visible); the thread may be
+    /// pre-empted before whatever non-atomic code follows.
+    After = 9,
 }
 
 /// Lifetime events of heap objects that are reachable through raw pointers.
@@ -275,63 +278,87 @@ pub mod sync {
                     #[track_caller]
                     pub fn load(&self, o: Ordering) -> $int {
                         point(Location::caller(), Op::Load, self.addr());
-                        self.0.load(o)
+                        let r = self.0.load(o);
+                        point(Location::caller(), Op::After, self.addr());
+                        r
                     }
                     #[track_caller]
                     pub fn store(&self, v: $int, o: Ordering) {
                         point(Location::caller(), Op::Store, self.addr());
-                        self.0.store(v, o)
+                        let r = self.0.store(v, o);
+                        point(Location::caller(), Op::After, self.addr());
+                        r
                     }
                     #[track_caller]
                     pub fn swap(&self, v: $int, o: Ordering) -> $int {
                         point(Location::caller(), Op::Rmw, self.addr());
-                        self.0.swap(v, o)
+                        let r = self.0.swap(v, o);
+                        point(Location::caller(), Op::After, self.addr());
+                        r
                     }
                     #[track_caller]
                     pub fn compare_exchange(&self, c: $int, n: $int, s: Ordering, f: Ordering) -> Result<$int, $int> {
                         point(Location::caller(), Op::Cas, self.addr());
-                        self.0.compare_exchange(c, n, s, f)
+                        let r = self.0.compare_exchange(c, n, s, f);
+                        point(Location::caller(), Op::After, self.addr());
+                        r
                     }
                     /// Under the shim the weak form never fails spuriously (deterministic replay).
                     #[track_caller]
                     pub fn compare_exchange_weak(&self, c: $int, n: $int, s: Ordering, f: Ordering) -> Result<$int, $int> {
                         point(Location::caller(), Op::Cas, self.addr());
-                        self.0.compare_exchange(c, n, s, f)
+                        let r = self.0.compare_exchange(c, n, s, f);
+                        point(Location::caller(), Op::After, self.addr());
+                        r
                     }
                     #[track_caller]
                     pub fn fetch_add(&self, v: $int, o: Ordering) -> $int {
                         point(Location::caller(), Op::Rmw, self.addr());
-                        self.0.fetch_add(v, o)
+                        let r = self.0.fetch_add(v, o);
+                        point(Location::caller(), Op::After, self.addr());
+                        r
                     }
                     #[track_caller]
                     pub fn fetch_sub(&self, v: $int, o: Ordering) -> $int {
                         point(Location::caller(), Op::Rmw, self.addr());
-                        self.0.fetch_sub(v, o)
+                        let r = self.0.fetch_sub(v, o);
+                        point(Location::caller(), Op::After, self.addr());
+                        r
                     }
                     #[track_caller]
                     pub fn fetch_and(&self, v: $int, o: Ordering) -> $int {
                         point(Location::caller(), Op::Rmw, self.addr());
-                        self.0.fetch_and(v, o)
+                        let r = self.0.fetch_and(v, o);
+                        point(Location::caller(), Op::After, self.addr());
+                        r
                     }
                     #[track_caller]
                     pub fn fetch_or(&self, v: $int, o: Ordering) -> $int {
                         point(Location::caller(), Op::Rmw, self.addr());
-                        self.0.fetch_or(v, o)
+                        let r = self.0.fetch_or(v, o);
+                        point(Location::caller(), Op::After, self.addr());
+                        r
                     }
                     #[track_caller]
                     pub fn fetch_xor(&self, v: $int, o: Ordering) -> $int {
                         point(Location::caller(), Op::Rmw, self.addr());
-                        self.0.fetch_xor(v, o)
+                        let r = self.0.fetch_xor(v, o);
+                        point(Location::caller(), Op::After, self.addr());
+                        r
                     }
                     #[track_caller]
                     pub fn fetch_max(&self, v: $int, o: Ordering) -> $int {
                         point(Location::caller(), Op::Rmw, self.addr());
-                        self.0.fetch_max(v, o)
+                        let r = self.0.fetch_max(v, o);
+                        point(Location::caller(), Op::After, self.addr());
+                        r
                     }
                     #[track_caller]
                     pub fn fetch_min(&self, v: $int, o: Ordering) -> $int {
                         point(Location::caller(), Op::Rmw, self.addr());
-                        self.0.fetch_min(v, o)
+                        let r = self.0.fetch_min(v, o);
+                        point(Location::caller(), Op::After, self.addr());
+                        r
                     }
                     /// Load, then CAS in a loop, each a separate scheduling point (as in std).
                     #[track_caller]
@@ -342,7 +369,10 @@ pub mod sync {
                         while let Some(next) = g(prev) {
                             point(loc, Op::Cas, self.addr());
                             match self.0.compare_exchange(prev, next, s, f) {
-                                Ok(x) => return Ok(x),
+                                Ok(x) => {
+                                    point(loc, Op::After, self.addr());
+                                    return Ok(x);
+                                }
                                 Err(p) => prev = p,
                             }
                         }
@@ -385,37 +415,51 @@ pub mod sync {
             #[track_caller]
             pub fn load(&self, o: Ordering) -> bool {
                 point(Location::caller(), Op::Load, self.addr());
-                self.0.load(o)
+                let r = self.0.load(o);
+                point(Location::caller(), Op::After, self.addr());
+                r
             }
             #[track_caller]
             pub fn store(&self, v: bool, o: Ordering) {
                 point(Location::caller(), Op::Store, self.addr());
-                self.0.store(v, o)
+                let r = self.0.store(v, o);
+                point(Location::caller(), Op::After, self.addr());
+                r
             }
             #[track_caller]
             pub fn swap(&self, v: bool, o: Ordering) -> bool {
                 point(Location::caller(), Op::Rmw, self.addr());
-                self.0.swap(v, o)
+                let r = self.0.swap(v, o);
+                point(Location::caller(), Op::After, self.addr());
+                r
             }
             #[track_caller]
             pub fn compare_exchange(&self, c: bool, n: bool, s: Ordering, f: Ordering) -> Result<bool, bool> {
                 point(Location::caller(), Op::Cas, self.addr());
-                self.0.compare_exchange(c, n, s, f)
+                let r = self.0.compare_exchange(c, n, s, f);
+                point(Location::caller(), Op::After, self.addr());
+                r
             }
             #[track_caller]
             pub fn compare_exchange_weak(&self, c: bool, n: bool, s: Ordering, f: Ordering) -> Result<bool, bool> {
                 point(Location::caller(), Op::Cas, self.addr());
-                self.0.compare_exchange(c, n, s, f)
+                let r = self.0.compare_exchange(c, n, s, f);
+                point(Location::caller(), Op::After, self.addr());
+                r
             }
             #[track_caller]
             pub fn fetch_or(&self, v: bool, o: Ordering) -> bool {
                 point(Location::caller(), Op::Rmw, self.addr());
-                self.0.fetch_or(v, o)
+                let r = self.0.fetch_or(v, o);
+                point(Location::caller(), Op::After, self.addr());
+                r
             }
             #[track_caller]
             pub fn fetch_and(&self, v: bool, o: Ordering) -> bool {
                 point(Location::caller(), Op::Rmw, self.addr());
-                self.0.fetch_and(v, o)
+                let r = self.0.fetch_and(v, o);
+                point(Location::caller(), Op::After, self.addr());
+                r
             }
         }
 
@@ -446,27 +490,37 @@ pub mod sync {
             #[track_caller]
             pub fn load(&self, o: Ordering) -> *mut T {
                 point(Location::caller(), Op::Load, self.addr());
-                self.0.load(o)
+                let r = self.0.load(o);
+                point(Location::caller(), Op::After, self.addr());
+                r
             }
             #[track_caller]
             pub fn store(&self, p: *mut T, o: Ordering) {
                 point(Location::caller(), Op::Store, self.addr());
-                self.0.store(p, o)
+                let r = self.0.store(p, o);
+                point(Location::caller(), Op::After, self.addr());
+                r
             }
             #[track_caller]
             pub fn swap(&self, p: *mut T, o: Ordering) -> *mut T {
                 point(Location::caller(), Op::Rmw, self.addr());
-                self.0.swap(p, o)
+                let r = self.0.swap(p, o);
+                point(Location::caller(), Op::After, self.addr());
+                r
             }
             #[track_caller]
             pub fn compare_exchange(&self, c: *mut T, n: *mut T, s: Ordering, f: Ordering) -> Result<*mut T, *mut T> {
                 point(Location::caller(), Op::Cas, self.addr());
-                self.0.compare_exchange(c, n, s, f)
+                let r = self.0.compare_exchange(c, n, s, f);
+                point(Location::caller(), Op::After, self.addr());
+                r
             }
             #[track_caller]
             pub fn compare_exchange_weak(&self, c: *mut T, n: *mut T, s: Ordering, f: Ordering) -> Result<*mut T, *mut T> {
                 point(Location::caller(), Op::Cas, self.addr());
-                self.0.compare_exchange(c, n, s, f)
+                let r = self.0.compare_exchange(c, n, s, f);
+                point(Location::caller(), Op::After, self.addr());
+                r
             }
         }
     }
